@@ -51,7 +51,14 @@ impl Monitor for M {
             let (m, l) = gen_systematic(&mut ctx.rng, (ctx.index / 4) % SYS_PERIOD);
             (m, Some(l))
         } else {
-            let mut o = if light { GenOpts::small() } else { GenOpts::normal() };
+            let mut o = if light {
+                GenOpts::small()
+            } else if ctx.index % 997 == 5 {
+                ctx.obs("messages.near_max_length");
+                GenOpts::near_max(&mut ctx.rng)
+            } else {
+                GenOpts::normal()
+            };
             if light {
                 o.max_total = 150;
                 o.typical_total = 80;
@@ -88,6 +95,33 @@ impl Monitor for M {
             }),
             ("continuation", continuation(ctx, &m)),
         ];
+        let mut suffixes = suffixes;
+        if !light && ctx.index % 40 == 3 {
+            // a long tail: the buffer behind the message is larger than any 16-bit quantity
+            // (65536 +- a few, a few hundred KiB, rarely beyond 1 MiB)
+            let n = match ctx.rng.below(12) {
+                0 => 65536 - ctx.rng.range(0, 40) as usize,
+                1 => 65536 + ctx.rng.range(0, 40) as usize,
+                2 => 131072 + ctx.rng.range(0, 70000) as usize - 20,
+                3 if ctx.index % 1000 == 3 => (1 << 20) + ctx.rng.range(0, 500_000) as usize,
+                4..=7 => {
+                    // chosen so that (bytes behind the standard header) mod 65536 is smaller than the message
+                    let k = ctx.rng.range(1, 3) as usize * 65536;
+                    (k + ctx.rng.usize_below(bytes.len().max(1))).saturating_sub(bytes.len())
+                }
+                _ => ctx.rng.range(66_000, 300_000) as usize,
+            };
+            let fill = match ctx.rng.below(3) {
+                0 => vec![0u8; n],
+                1 => vec![b'A'; n],
+                _ => {
+                    let unit = if bytes.len() < 4096 { bytes.clone() } else { vec![0x44, 0x4C, 0x54, 0x01, 0x35] };
+                    unit.iter().cycle().take(n).cloned().collect()
+                }
+            };
+            ctx.obs("suffix.long_tail");
+            suffixes.push(("long_tail", fill));
+        }
         let htyp = crate::refcodec::htyp_of(&m.header);
         let first_words: Vec<u32> = match &m.payload {
             PayloadContent::Verbose(a) => a.iter().take(8).map(|x| tyinfo_word(&x.type_info)).collect(),
@@ -196,7 +230,7 @@ impl Monitor for M {
 
     fn describe(&self, ctx: &Ctx) -> J {
         super::describe(
-            "well-formed messages from the structured generator: 3/4 random (payload kinds verbose/non-verbose/control/network-trace, 0..255 arguments of all 19 kind x width combinations with/without variable info, values by bit pattern incl. NaN payloads, ids and texts with 1-4 byte scalars, all header flag sets, boundary totals 65534/65535) and 1/4 from the systematic layer (all 32 flag sets x storage x version, all 256 MSIN bytes, 19 kinds x VARI x byte order, empty payloads per kind); each parsed with 3 suffixes (empty, random bytes, parseable continuation: valid argument / next message / zeros / partial or full storage pattern / oversized raw header). distinct = (storage?, HTYP, MSIN, argument-count bucket, first 8 type-info words, length bucket, suffix class); non-trivial = non-empty payload",
+            "well-formed messages from the structured generator: 3/4 random (payload kinds verbose/non-verbose/control/network-trace, 0..255 arguments of all 19 kind x width combinations with/without variable info, values by bit pattern incl. NaN payloads, ids and texts with 1-4 byte scalars, all header flag sets, boundary totals 65534/65535) and 1/4 from the systematic layer (all 32 flag sets x storage x version, all 256 MSIN bytes, 19 kinds x VARI x byte order, empty payloads per kind); each parsed with 3 suffixes (empty, random bytes, parseable continuation: valid argument / next message / zeros / partial or full storage pattern / oversized raw header); every 40th case adds a long tail (65536 +- 40 bytes, 64 KiB multiples aligned so that the buffer length mod 65536 is below the message length, 66-300 KiB, rarely > 1 MiB) and 1 in 997 messages has one of the 16 largest declarable lengths; names / units / strings occasionally 32766..65534 bytes long, texts may start with U+FEFF, ids and payload data may contain the storage-header pattern, and 1 in 150 messages is the one whose standard header serialises to 'DLT\\x01'. distinct = (storage?, HTYP, MSIN, argument-count bucket, first 8 type-info words, length bucket, suffix class); non-trivial = non-empty payload",
             &["well-formedness is the quantifier text of C01, checked by a predicate written separately from the generator; a generated message failing it is a harness error, not a violation"],
             &[("ok.roundtrip", super::scaled(ctx, 100000)), ("ok.argument_inverse", super::scaled(ctx, 10000)), ("ok.kind.networktrace.be", 100), ("ok.kind.verbose.be", 100), ("ok.kind.control.le", 100), ("ok.kind.nonverbose.le", 100)],
         )
